@@ -69,7 +69,7 @@ def probe(cfg):
     stamp = exe + ".stamp"
     key = li["hash"] + hashlib.sha256(open(src, "rb").read()).hexdigest()
     if not (os.path.exists(exe) and os.path.exists(stamp) and open(stamp).read() == key):
-        cmd = [buildlib.CXX, "-std=c++17", "-O0", "-fno-access-control"] + li["flags"] + \
+        cmd = [buildlib.CXX, "-std=c++17", "-O0", "-fno-access-control"] + os.environ.get("VERIF_EXTRA_CXXFLAGS", "").split() + li["flags"] + \
               ["-I" + os.path.join(buildlib.repo_dir(), "src"), src, li["lib"], "-lpthread", "-o", exe]
         r = subprocess.run(cmd, capture_output=True, text=True)
         if r.returncode != 0:
